@@ -620,6 +620,8 @@ class Packetizer:
             self.__received_packets_overflow = 0
             self._trigger_rekey()
 
+        if len(payload) == 0:
+            raise SSHException("Invalid packet: empty payload")
         cmd = byte_ord(payload[0])
         if cmd in MSG_NAMES:
             cmd_name = MSG_NAMES[cmd]
